@@ -236,8 +236,13 @@ class PartialModel:
         old_is_model = isinstance(v_old, self.__partial_fac__.base_model)
         new_is_model = isinstance(v_new, self.__partial_fac__.base_model)
         if old_is_model and new_is_model:
-            v_old_p = self.__partial_fac__.get_partial(type(v_old)).cast(v_old)
-            v_new_p = self.__partial_fac__.get_partial(type(v_new)).cast(v_new)
+            # (nested values of parsed partials are partial models already)
+            v_old_p, v_new_p = (
+                v
+                if isinstance(v, PartialModel)
+                else self.__partial_fac__.get_partial(type(v)).cast(v)
+                for v in (v_old, v_new)
+            )
             new_subclass_old = issubclass(type(v_new_p), type(v_old_p))
             old_subclass_new = issubclass(type(v_old_p), type(v_new_p))
             if new_subclass_old or old_subclass_new:
